@@ -8,6 +8,7 @@ from .values import *  # noqa
 from .state import State, Fork, Unsupported, Ob
 from .expr import Evaluator, I, as_int, as_real, is_num, const_int, zmin, zmax
 from .npth import NumpyTheory
+from .mat import MatrixTheory, VMat, VMatMask, VCol
 from .contract import REGISTRY, BY_NAME, Contract, CLASSES, UFUNCS
 from . import values as _values
 values_ctr = _values._ctr
@@ -58,10 +59,10 @@ def _has_quant(t):
     return False
 
 
-class Engine(NumpyTheory, Evaluator):
+class Engine(MatrixTheory, NumpyTheory, Evaluator):
     BUILTINS = {'len', 'min', 'max', 'abs', 'int', 'range', 'list', 'tuple', 'isinstance', 'slice', 'all', 'any',
                 'implies', 'old', 'enumerate', 'zip', 'ceil', 'floor', 'float', 'bool', 'str', 'dict', 'getattr',
-                'round', 'iff', 'sorted', 'ite', 'map', 'super', 'fresh_obj', 'same_fields_except', 'is_fresh', 'psum', 'ops_fold', 'op_row', 'nblocks', 'flat', 'elems', 'is_list', 'is_none', 'smul', 'smul_def', 'sq', 'rpsum', 'same_rows', 'same_lengths'}
+                'round', 'iff', 'sorted', 'ite', 'map', 'super', 'fresh_obj', 'same_fields_except', 'is_fresh', 'psum', 'ops_fold', 'op_row', 'nblocks', 'flat', 'elems', 'is_list', 'is_none', 'smul', 'smul_def', 'sq', 'rpsum', 'same_rows', 'same_lengths', 'width', 'same_widths'}
 
     def __init__(self, spec_module_path=None):
         self.obs = []
@@ -151,6 +152,8 @@ class Engine(NumpyTheory, Evaluator):
             lv, n = st.heap.fresh_list(t[1], base)
             st.assume(n >= 0)
             return VList(lv.ref, nd=(k == 'arr'))
+        if k in ('mat', 'flatmat'):
+            return self.fresh_mat(t[1], base, st, flat=(k == 'flatmat'))
         if k == 'rag':
             rv, cnt, lens = st.heap.fresh_rag(t[1], base)
             q = z3.Int(fresh_name('q'))
@@ -303,6 +306,8 @@ class Engine(NumpyTheory, Evaluator):
                 if r is None:
                     raise Unsupported('ndarray dunder on non-row data')
                 return r
+            if f.kind == 'matmethod':
+                return self.mat_method(f.self_val, f.name, args, kw, st, node)
             if f.kind == 'ragmethod' and f.name == 'items':
                 return VRagItems(f.self_val)
             if f.kind == 'ragmethod':
@@ -397,7 +402,12 @@ class Engine(NumpyTheory, Evaluator):
         if not isinstance(cands, list):
             return cands
         if len(cands) == 1:
-            return cands[0]
+            c = cands[0]
+            if any(str(t).startswith(('mat[', 'flatmat[')) for t in c.params.values()):
+                env = self.bind_params(c, args, kw, st)
+                if not all(self.value_matches(env[n], parse_type(t), st) for n, t in c.params.items() if n in env and str(t).startswith(('mat[', 'flatmat['))):
+                    raise Unsupported('the only contract of %s in scope is for matrix arguments' % c.qual)
+            return c
         for c in cands:
             try:
                 env = self.bind_params(c, args, kw, st)
@@ -440,8 +450,10 @@ class Engine(NumpyTheory, Evaluator):
             return isinstance(v, VTuple) and len(v.items) == len(t[1]) and all(self.value_matches(x, y, st) for x, y in zip(v.items, t[1]))
         if k == 'slice':
             return isinstance(v, VSlice) and all(self.value_matches(x, y, st) for x, y in zip((v.start, v.stop, v.step), t[1:]))
+        if k in ('mat', 'flatmat'):
+            return isinstance(v, VMat) and v.flat == (k == 'flatmat') and st.heap.rags[v.ref].etype == t[1]
         if k == 'rag':
-            return isinstance(v, VRag)
+            return isinstance(v, VRag) and not isinstance(v, VMat)
         if k == 'obj':
             return isinstance(v, VObj) and (t[1] is None or self.is_subclass(v.cls, t[1]))
         if k == 'rec':
@@ -642,6 +654,10 @@ class Engine(NumpyTheory, Evaluator):
             # rpsum(list_of_arrays, p): number of elements in the first p arrays
             rc = st.heap.rags[args[0].ref]
             return VInt(self.rag_psum(rc, st)(as_int(args[1])))
+        if name == 'width':
+            return VInt(self.mcell(args[0], st)[2])
+        if name == 'same_widths':
+            return VBool(self.mcell(args[0], st)[2] == self.mcell(args[1], st)[2])
         if name == 'same_lengths':
             ra, rb = st.heap.rags[args[0].ref], st.heap.rags[args[1].ref]
             return VBool(z3.And(ra.count == rb.count, ra.lens == rb.lens))
@@ -1085,6 +1101,8 @@ class Engine(NumpyTheory, Evaluator):
                     values_ctr[0] = hw
             except Fork as f:
                 del self.obs[mark:]
+                if os.environ.get('PYVC_FORKTRACE'):
+                    print('FORK', getattr(stmt, 'lineno', '?'), str(f.cond)[:300].replace('\n', ' '), flush=True)
                 a = s.copy()
                 a.assume(f.cond)
                 a.decisions.append(f.cond)
@@ -1218,6 +1236,8 @@ class Engine(NumpyTheory, Evaluator):
         return self._peek_cache[1]
 
     def setitem_hook(self, base, tgt, val, st):
+        if isinstance(base, VMat):
+            return self.mat_setitem(base, tgt, val, st)
         # rows[:, mask] = 0 on a block of opaque rows: every row gets the masked columns zeroed (row-wise op 'zero_cols')
         if isinstance(base, VList) and base.nd and isinstance(tgt.slice, ast.Tuple) and len(tgt.slice.elts) == 2 \
                 and isinstance(tgt.slice.elts[0], ast.Slice) and all(x is None for x in (tgt.slice.elts[0].lower, tgt.slice.elts[0].upper, tgt.slice.elts[0].step)):
@@ -1716,54 +1736,77 @@ class Engine(NumpyTheory, Evaluator):
         for ci, case in enumerate(cases):
             ctag = '' if len(cases) == 1 else '[' + ','.join('%s:%s' % (n, type_str(t)) for n, t in case.items() if ('opt' in c.params.get(n, '') or c.cases)) + ']'
             self.cur_tag = '%s.%s%s' % (prop_tag, c.qual, ctag)
-            st = State(self)
-            argnames = [a.arg for a in fn.args.args] + [a.arg for a in fn.args.kwonlyargs]
-            for n in argnames:
-                if n == 'self' and n not in case:
-                    cls = c.qual.split('.')[0]
-                    st.env['self'] = self.fresh_value(('obj', cls), 'self', st)
-                    continue
-                if n not in case:
-                    if n in c.defaults:
-                        st.env[n] = self.spec_eval(c.defaults[n], st)
+            def build_entry(asm, case=case):
+                st = State(self)
+                for a_ in asm:
+                    st.assume(a_)
+                    st.decisions.append(a_)
+                argnames = [a.arg for a in fn.args.args] + [a.arg for a in fn.args.kwonlyargs]
+                for n in argnames:
+                    if n == 'self' and n not in case:
+                        cls = c.qual.split('.')[0]
+                        st.env['self'] = self.fresh_value(('obj', cls), 'self', st)
                         continue
-                    raise front.AttachError('%s: parameter %r has no type in the contract' % (c.key, n))
-                st.env[n] = self.fresh_value(case[n], n, st)
-                if n in c.kinds and isinstance(st.env[n], VElem):
-                    st.env[n].kind = c.kinds[n]
-                if case[n] == 'elem' and 'opt[' in c.params.get(n, ''):
-                    st.assume(st.env[n].t != NONE_ELEM)      # the None case is a separate case
-            if fn.args.vararg:
-                vn = fn.args.vararg.arg
-                t = case.get(vn)
-                if t is None:
-                    raise front.AttachError('%s: *%s has no type in the contract' % (c.key, vn))
-                st.env[vn] = self.fresh_value(t, vn, st)
-            if fn.args.kwarg:
-                kn = fn.args.kwarg.arg
-                t = case.get(kn)
-                if t is None:
-                    raise front.AttachError('%s: **%s has no type in the contract' % (c.key, kn))
-                st.env[kn] = self.fresh_value(t, kn, st)
-            if 'World' in CLASSES:
-                st.env['G'] = self.fresh_value(('obj', 'World'), 'G', st)
-            for n in case:
-                if n not in st.env:
-                    raise front.AttachError('%s: contract parameter %r is not a parameter of the function' % (c.key, n))
-            entry_env = dict(st.env)
-            for n, e in c.let.items():
-                st.env[n] = self.spec_eval(e, st)
-                entry_env[n] = st.env[n]
-            for lab, e in c.requires:
-                st.assume(self.spec_truth(e, st))
-            # vacuity guard: requires must be satisfiable (checked by the driver with full solver)
-            self.obs.append(_cover('%s.cover.requires' % self.cur_tag, list(st.pc), c.key))
-            for g, e in c.ghost.items():
-                st.ghost[g] = self.spec_eval(e, st)
-            st.old = {'env': dict(entry_env), 'heap': st.heap.copy(), 'ghost': dict(st.ghost), 'next_ref': st.heap.next_ref[0]}
-            finals = self.exec_block(fn.body, [st])
+                    if n not in case:
+                        if n in c.defaults:
+                            st.env[n] = self.spec_eval(c.defaults[n], st)
+                            continue
+                        raise front.AttachError('%s: parameter %r has no type in the contract' % (c.key, n))
+                    st.env[n] = self.fresh_value(case[n], n, st)
+                    if n in c.kinds and isinstance(st.env[n], VElem):
+                        st.env[n].kind = c.kinds[n]
+                    if case[n] == 'elem' and 'opt[' in c.params.get(n, ''):
+                        st.assume(st.env[n].t != NONE_ELEM)      # the None case is a separate case
+                if fn.args.vararg:
+                    vn = fn.args.vararg.arg
+                    t = case.get(vn)
+                    if t is None:
+                        raise front.AttachError('%s: *%s has no type in the contract' % (c.key, vn))
+                    st.env[vn] = self.fresh_value(t, vn, st)
+                if fn.args.kwarg:
+                    kn = fn.args.kwarg.arg
+                    t = case.get(kn)
+                    if t is None:
+                        raise front.AttachError('%s: **%s has no type in the contract' % (c.key, kn))
+                    st.env[kn] = self.fresh_value(t, kn, st)
+                if 'World' in CLASSES:
+                    st.env['G'] = self.fresh_value(('obj', 'World'), 'G', st)
+                for n in case:
+                    if n not in st.env:
+                        raise front.AttachError('%s: contract parameter %r is not a parameter of the function' % (c.key, n))
+                entry_env = dict(st.env)
+                for n, e in c.let.items():
+                    st.env[n] = self.spec_eval(e, st)
+                    entry_env[n] = st.env[n]
+                for lab, e in c.requires:
+                    st.assume(self.spec_truth(e, st))
+                # vacuity guard: requires must be satisfiable (checked by the driver with full solver)
+                self.obs.append(_cover('%s.cover.requires' % self.cur_tag, list(st.pc), c.key))
+                for g, e in c.ghost.items():
+                    st.ghost[g] = self.spec_eval(e, st)
+                st.old = {'env': dict(entry_env), 'heap': st.heap.copy(), 'ghost': dict(st.ghost), 'next_ref': st.heap.next_ref[0]}
+                return st, entry_env
+            # optional fields of self (opt[...] inside declared classes) fork while the entry state is built: one entry state per combination
+            work, entries = [[]], []
+            ctr0 = values_ctr[0]
+            hw = ctr0
+            while work:
+                asm = work.pop()
+                values_ctr[0] = ctr0
+                try:
+                    entries.append(build_entry(asm))
+                except Fork as fk:
+                    work.append(asm + [z3.Not(fk.cond)])
+                    work.append(asm + [fk.cond])
+                finally:
+                    hw = max(hw, values_ctr[0])
+            values_ctr[0] = hw
+            finals = []
+            for st, entry_env in entries:
+                if st.feasible():
+                    finals.extend((f_, entry_env) for f_ in self.exec_block(fn.body, [st]))
             info['cases'] += 1
-            for f in finals:
+            for f, entry_env in finals:
                 info['paths'] += 1
                 self.finish_path(c, f, fn, entry_env)
         info['obligations'] = len(self.obs) - start
